@@ -308,3 +308,4 @@ _rr_static('C10', 'C19', 'C19.no_stateful_local_statics', 'C10.lemma.no_state_be
 # the SM-limit argument takes the light-Higgs couplings y_f^h = M_f s/v + rho_f c/sqrt2 with ONE sign s for quarks and leptons from C09's getter contract
 from contracts import c09 as _c09_y
 _rr_static('C10', 'C09', 'C09.yukawa_getters.published_form', 'C10.lemma.yukawa_getters.published_form')
+from contracts import c10_ref  # noqa: reference-formula contracts (math/THDMTwoLoopB.m)
